@@ -1278,6 +1278,13 @@ pub fn array_splice(
 
     drop(arr_ref);
     let guard = interp.heap.create_guard();
+    // The removed elements are no longer reachable through the source array: root them before
+    // the result array is allocated (the allocation can trigger a collection)
+    for value in &removed {
+        if let JsValue::Object(obj) = value {
+            guard.guard(obj.cheap_clone());
+        }
+    }
     let arr = interp.create_array_from(&guard, removed);
     Ok(Guarded::with_guard(JsValue::Object(arr), guard))
 }
